@@ -1014,7 +1014,7 @@ func addTrace(w *CaseWriter, in *TrIn) {
 // runTraceStream writes the shards tcases_<k>.v (+ tcases.meta.json, tcases.jsonl) under o.Out.
 func runTraceStream(o Opts) {
 	rng := NewRng(o.Seed*1000003 + 50503).Split()
-	w := newTraceWriter(o, "tcases", 8)
+	w := newTraceWriter(o, "tcases", 12)
 	n := 40
 	if o.Tier == "thorough" {
 		n = 400
